@@ -1134,6 +1134,38 @@ func (g *generator) renderPkg(m *Module, p *gpkg, decls []*gpkg) {
 			add(fmt.Sprintf("func RecUser%d() {\n", k) + indent(b) + "}")
 		}
 	}
+	// sibling scopes declaring a local of one name with different types; under RenameLocals every declaration gets a
+	// name of its own (a consistent renaming of each variable)
+	for _, t := range visible {
+		if t.kind != 0 {
+			continue
+		}
+		tr := g.typeRef(p, t, -1)
+		nm := func(k int) string {
+			if g.o.RenameLocals {
+				return fmt.Sprintf("sib%dR", k)
+			}
+			return "sib"
+		}
+		blocks := [][]string{
+			{"{", "\t" + nm(0) + " := &Free{}", "\t" + nm(0) + ".X = 1 " + g.nextTag(), "\t" + nm(0) + ".Items[0] = 2 " + g.nextTag(), "}"},
+			{"{", "\t" + nm(1) + " := new(" + tr + ") " + g.nextTag(), "\t" + nm(1) + ".X = 3 " + g.nextTag(), "\t" + nm(1) + ".Items[0] = 4 " + g.nextTag(), "}"},
+			{"for _, " + nm(2) + " := range []*Free{nil} {", "\t" + nm(2) + ".X++ " + g.nextTag(), "}"},
+			{"for _, " + nm(3) + " := range []*" + tr + "{nil} {", "\t" + nm(3) + ".X++ " + g.nextTag(), "}"},
+		}
+		if g.xr.Bool() {
+			blocks[0], blocks[1] = blocks[1], blocks[0]
+		}
+		if g.xr.Bool() {
+			blocks[2], blocks[3] = blocks[3], blocks[2]
+		}
+		var b []string
+		for _, bl := range blocks {
+			b = append(b, bl...)
+		}
+		add("func Siblings() {\n" + indent(b) + "}")
+		break
+	}
 	// a @testonly helper function whose body uses @testonly items (must stay silent)
 	if len(visible) > 0 && r.Chance(1, 2) && !g.o.NoAnnotations {
 		t := rng.Pick(r, visible)
